@@ -185,6 +185,9 @@ func buildQuery(o *Obligation, negate bool) string {
 	}
 	var lits []string
 	for _, l := range lines {
+		if o.Kind == "cover" && (strings.Contains(l, "(forall ") || strings.Contains(l, "(exists ")) && strings.HasPrefix(l, "(assert") {
+			continue // quantified hypotheses are left out of vacuity checks so that they stay decidable
+		}
 		b.WriteString(l)
 		b.WriteString("\n")
 		if strings.HasPrefix(l, "(declare-const strlit_") {
@@ -215,7 +218,7 @@ func discharge(obls []*Obligation, cfg runCfg) {
 			defer wg.Done()
 			defer func() { <-sem }()
 			q := buildQuery(o, true)
-			o.Res = solve(q, cfg.timeoutMs, cfg.allSolver, nil)
+			o.Res = solve(q, cfg.timeoutMs, cfg.allSolver, nil, o.Kind == "cover")
 		}(o)
 	}
 	wg.Wait()
